@@ -2058,6 +2058,10 @@ def _c10_route_scenario(sc, x, rng):
             w = rng.choice(["A", "B", "S"])
             s_.update({"rec": True, "brace": True, "toks": [w], "plain": "", "ibrace": True,
                        "itoks": [rng.choice(["A", "B", "S"])], "iplain": ""})
+        elif o == "log_recursive_respec":
+            # while the record is being formatted - before its message logs the inner record - another thread calls
+            # set_new_spec(): nothing of the logger may be locked across the formatting
+            s_.update({"rec": True, "respec": True})
         elif o == "log_brace_default":
             s_.update({"brace": True, "toks": ["A", "B", "S", "_Default"], "plain": ""})
         elif o == "log_brace_open":
@@ -2226,7 +2230,7 @@ def C10(tier, seed):
             reps2 = keep + [x for x in reps2 if x not in keep][:max(0, lim2 - len(keep))]
         rscens = [_c10_route_scenario(100001 + k, x, rng) for k, x in enumerate(reps2)]
         res2 = C.run_sharded(pid, "MonC10r", rscens, wd, sub="route")
-        C.log(f"[C10] output classes: {nstd_all} combinations (14 output classes x sequences of 3 of 7 operation classes) from TLC, "
+        C.log(f"[C10] output classes: {nstd_all} combinations (14 output classes x sequences of 3 of 8 operation classes) from TLC, "
               f"{len(rscens)} executed through the whole logger ({res2['events']} events); judged by MonC10r.tla; "
               f"{len(res2['bads'])} predicate failures; counters {res2['counts']}")
         # the memory buffer (Logger::log_to_buffer): BufW.tla model-checked (FIFO, limit, newest line present, no needless
